@@ -332,6 +332,14 @@ impl IndexManager {
                 header_v2.ekey_length
             )));
         }
+        // The segment size is 1 << file_offset_bits (save_index writes it that way): more
+        // than 63 bits is not an index header
+        if header_v2.file_offset_bits > 63 {
+            return Err(StorageError::Index(format!(
+                "Invalid file offset bits: {}",
+                header_v2.file_offset_bits
+            )));
+        }
 
         // Create legacy header for compatibility
         let header = IndexHeader {
